@@ -464,6 +464,47 @@ class Loader:
             return root
         return _bi.__import__(name, globals, locals, fromlist, level)
 
+    # ---------------------------------------------------------------- mechanical extraction
+    def extract_tail(self, modname, qualname, inputs):
+        """The body of a method from the first statement on that does not define one of `inputs`, as a function whose
+        extra parameters are those names.  Mechanical, from the current source, on every run: the leading statements that
+        assign the names in `inputs` (and nothing else) are dropped -- their text is returned so that the evidence states
+        exactly what is not under contract -- and everything after them is compiled unchanged (same instrumentation,
+        same module namespace).  Returns (function, dropped source text, source text of the kept part, sha)."""
+        self.load(modname)
+        tree = self.trees[modname]
+        node = tree
+        for p in qualname.split("."):
+            node = next(n for n in node.body if isinstance(n, (ast.FunctionDef, ast.ClassDef)) and n.name == p)
+        body = list(node.body)
+        if body and isinstance(body[0], ast.Expr) and isinstance(getattr(body[0], "value", None), ast.Constant) \
+                and isinstance(body[0].value.value, str):
+            body = body[1:]
+        dropped, want = [], set(inputs)
+        while body and want:
+            st = body[0]
+            if isinstance(st, ast.Assign) and len(st.targets) == 1 and isinstance(st.targets[0], ast.Name) and st.targets[0].id in want:
+                want.discard(st.targets[0].id)
+                dropped.append(st)
+                body = body[1:]
+            else:
+                break
+        if want:
+            raise KeyError(f"{modname}:{qualname}: leading statements do not define {sorted(want)}")
+        import copy
+        args = copy.deepcopy(node.args)
+        args.args = list(args.args) + [ast.arg(arg=n) for n in inputs]
+        fn = ast.FunctionDef(name=node.name + "__tail", args=args, body=copy.deepcopy(body), decorator_list=[], returns=None,
+                             type_comment=None, type_params=[])
+        mod = ast.Module(body=[fn], type_ignores=[])
+        kept_text = ast.unparse(ast.fix_missing_locations(copy.deepcopy(mod)))
+        mod = _Instrument().visit(mod)
+        ast.fix_missing_locations(mod)
+        ns = {}
+        exec(compile(mod, self._path(modname)[0], "exec"), self.modules[modname].__dict__, ns)
+        dropped_text = "\n".join(ast.unparse(d) for d in dropped)
+        return ns[node.name + "__tail"], dropped_text, kept_text, hashlib.sha256(kept_text.encode()).hexdigest()[:16]
+
     # ---------------------------------------------------------------- lookup
     def cls(self, dotted):
         mod, name = dotted.rsplit(".", 1)
